@@ -57,6 +57,41 @@ def cargo_build(package, target_dir="target", release=False, features=None, extr
     return os.path.join(ENGINE, target_dir, "release" if release else "debug", package)
 
 
+def run_engine(cmd, result_path, what, timeout=7200, extra_env=None):
+    """Runs an engine command that writes result_path. If the process dies on a signal, re-runs it
+    single-threaded with a side file to name the case it died on and reports that as a failure."""
+    rc, log = run(cmd, timeout=timeout, extra_env=extra_env)
+    if rc == 0:
+        r = json.load(open(result_path))
+        os.remove(result_path)
+        return r
+    if rc < 0 or rc in (134, 139, 132, 136, 138):
+        side = result_path + ".side"
+        if os.path.exists(side):
+            os.remove(side)
+        e = dict(extra_env or {})
+        e.update({"VERIF_THREADS": "1", "VERIF_SIDEFILE": side})
+        rc2, log2 = run(cmd, timeout=timeout, extra_env=e)
+        if rc2 != 0 and os.path.exists(side):
+            try:
+                case = json.load(open(side))
+            except Exception:
+                case = None
+            if case is not None:
+                os.remove(side)
+                return {
+                    "evaluations": 1, "distinct_nontrivial": 0, "nontrivial": 0, "rule": "crash localisation run",
+                    "samples": [case], "classes": {}, "counters": {},
+                    "failures": [{"signature": "crash", "case": case,
+                                  "message": "the process died (exit status %s) while executing this case: %s" % (rc2, (log2 or log)[-600:])}],
+                }
+        if rc2 == 0 and os.path.exists(result_path):
+            # did not reproduce single-threaded
+            os.remove(result_path)
+        raise Inconclusive("%s died (rc %s) and the crash could not be attributed to a case:\n%s" % (what, rc, log[-2000:]))
+    raise Inconclusive("%s failed (rc %s):\n%s" % (what, rc, log[-3000:]))
+
+
 def load_known():
     try:
         return json.load(open(KNOWN))
@@ -72,21 +107,39 @@ def e1_part(prop_arg, cases, name=None):
         exe = cargo_build("e1_layout")
         os.makedirs(WORK, exist_ok=True)
         out = os.path.join(WORK, "e1_%s_%s.json" % (prop_arg, os.getpid()))
-        rc, log = run([exe, "run", prop_arg, str(cases[tier]), out], timeout=7200)
-        if rc != 0:
-            raise Inconclusive("e1_layout run %s failed (rc %s):\n%s" % (prop_arg, rc, log[-3000:]))
-        r = json.load(open(out))
-        os.remove(out)
+        r = run_engine([exe, "run", prop_arg, str(cases[tier]), out], out, "e1_layout run " + prop_arg)
+        r.setdefault("property", prop_arg)
         r["part"] = name or ("e1:" + prop_arg)
         r["replay_engine"] = "e1"
         return r
     return f
 
 
+def e4_part(prop_arg, cases, max_len, release):
+    def f(tier):
+        exe = cargo_build("e4_vecconv", release=release)
+        os.makedirs(WORK, exist_ok=True)
+        out = os.path.join(WORK, "e4_%s_%s.json" % (prop_arg, os.getpid()))
+        r = run_engine([exe, "run", prop_arg, str(cases[tier]), str(max_len[tier]), out], out, "e4_vecconv run " + prop_arg,
+                       extra_env={"VERIF_SEED": str(seed() ^ (0x52454C if release else 0))})
+        r.setdefault("property", prop_arg)
+        r["part"] = "e4:%s:%s" % (prop_arg, "release" if release else "debug")
+        r["replay_engine"] = "e4-release" if release else "e4"
+        return r
+    return f
+
+
+def e4_parts(prop_arg, cases, max_len):
+    return [e4_part(prop_arg, cases, max_len, False), e4_part(prop_arg, cases, max_len, True)]
+
+
 PROPERTIES = {
     "C01": dict(level="exploration", parts=[e1_part("C01", dict(quick=100000, thorough=2000000))]),
     "C02": dict(level="exploration", parts=[e1_part("C02", dict(quick=100000, thorough=2000000))]),
     "C03": dict(level="exploration", parts=[e1_part("C03", dict(quick=100000, thorough=2000000))]),
+    "C08": dict(level="exploration", parts=e4_parts("C08", dict(quick=60000, thorough=1500000), dict(quick=8, thorough=12))),
+    "C09": dict(level="fault_enumeration", parts=e4_parts("C09", dict(quick=60000, thorough=1500000), dict(quick=8, thorough=11))),
+    "C10": dict(level="exploration", parts=e4_parts("C10", dict(quick=40000, thorough=600000), dict(quick=12, thorough=40))),
     "C12": dict(level="exploration", parts=[e1_part("C12", dict(quick=100000, thorough=2000000))]),
     "C13": dict(level="exploration", parts=[e1_part("C13", dict(quick=30000, thorough=500000))]),
     "C18": dict(level="exploration", parts=[e1_part("C18", dict(quick=40000, thorough=600000))]),
@@ -111,6 +164,8 @@ ASSUMPTIONS = {
 def setup():
     try:
         cargo_build("e1_layout")
+        cargo_build("e4_vecconv")
+        cargo_build("e4_vecconv", release=True)
     except Inconclusive as e:
         print("setup failed:", e)
         return 2
@@ -123,6 +178,13 @@ def replay(prop, path):
     try:
         if engine == "e1":
             exe = cargo_build("e1_layout")
+            rc, out = run([exe, "replay", data.get("replay_property", prop), path], timeout=600)
+            print(out, end="")
+            if rc == 1:
+                print("VIOLATION property=%s replay=%s" % (prop, path))
+            return rc
+        if engine in ("e4", "e4-release"):
+            exe = cargo_build("e4_vecconv", release=(engine == "e4-release"))
             rc, out = run([exe, "replay", data.get("replay_property", prop), path], timeout=600)
             print(out, end="")
             if rc == 1:
@@ -182,7 +244,10 @@ def run_check(prop, tier):
 
     # evidence
     evaluations = sum(r.get("evaluations", 0) for r in results)
-    distinct = sum(r.get("distinct_nontrivial", 0) for r in results)
+    # cases enumerated identically by several parts (same exhaustive sub-space in two build
+    # configurations) are counted once; randomly generated cases use a different seed per part
+    distinct = sum(r.get("distinct_nontrivial_random", r.get("distinct_nontrivial", 0)) for r in results)
+    distinct += max([r.get("distinct_nontrivial_enum", 0) for r in results] or [0])
     samples = []
     for r in results:
         for s in r.get("samples", [])[:3]:
